@@ -75,3 +75,16 @@ CLAIMS["C19"] = {
     "note": "Trusted: the service lists newest-first with consistent markers (assumption of the property); s3transfer futures. "
             "Calls are treated as expressions (identical call text = same value).",
 }
+
+CLAIMS["C08"] = {
+    "technique": "typestate (writer sites x CFG must-hold guards) + complete value-set truth table of the loss/gain vectors by "
+                 "element-wise abstract evaluation of def-use terms + term matching of the bound formulas + CFG dominance",
+    "level": "Decides for all elections, weightings, call/stop lists, both correlation modes and every order/list of requested "
+             "aggregates: (a) each model attribute the summary reads is written only under the top-level-aggregate guard, so "
+             "the result cannot depend on which finer aggregates were computed or in what order; (b) over the complete finite "
+             "table (winner x mode x call code x stop flag, exhaustive) losses/gains are 0/1, losses only at winners, gains only "
+             "at losers, called contests zero - which with non-negative weights gives lower <= pred <= upper and the "
+             "[base, base+total] range; (c) output formulas, weight order, length check before use, client loop and columns.",
+    "note": "Trusted: numpy element-wise semantics; weights non-negative. The order-statistic draws themselves (which contest "
+            "is 'lower'/'upper') are abstracted to arbitrary 0/1 values, which over-approximates them.",
+}
